@@ -754,6 +754,7 @@ func init() {
 	profileFns["append"] = withExtremes(func(s *shardSet, rng *rand.Rand, thorough bool) ([]string, map[string]int) {
 		types, extra := driveAppend(s, rng, thorough)
 		driveRaggedAppend(s, rng, thorough)
+		driveConcurrentAppend(s, rng, thorough)
 		return types, extra
 	})
 	profileFns["appendsample"] = withExtremes(func(s *shardSet, rng *rand.Rand, thorough bool) ([]string, map[string]int) {
